@@ -44,6 +44,7 @@ fn main() {
         ["c04", "record", runs, path] => c04::record(runs.parse().unwrap(), path),
         ["c05", "replay", path] => c05::replay(path),
         ["c05", "record", runs, path] => c05::record(runs.parse().unwrap(), path),
+        ["c05", "jets", n, path] => c05::record_jets(n.parse().unwrap(), path),
         ["c08", "replay", path] => c08::replay(path),
         ["c08", "record", runs, path] => c08::record(runs.parse().unwrap(), path),
         ["c12", "replay", path] => c12::replay(path),
